@@ -263,6 +263,20 @@ def check_point(cls, spec, o, res):
                 getattr(r, nm)
             except Exception:
                 pass
+    # what a read hands out belongs to the caller: editing a returned list / dict / set must not change later reads
+    for nm in ("status", "value"):
+        try:
+            x = getattr(r, nm)
+        except Exception:
+            continue
+        if isinstance(x, list):
+            x.append("(caller's note)")
+            x.reverse()
+            del x[1:]
+        elif isinstance(x, dict):
+            x.clear()
+        elif isinstance(x, set):
+            x.add("(caller's note)")
     third = snapshot()
     if not (first == second == third) or (first[0][1] == "v") != (val[0] == "v") or (first[0][1] == "x" and first[0][2] != val[1]):
         add_violation(res, f"C06:{cname}:reread-differs:{okind}",
